@@ -31,4 +31,25 @@ structure RegEnc where
   layout5 : Bool
 deriving Repr, DecidableEq, Inhabited
 
+/-- `Datapath::set_program` / `update_field` (`src/lib.rs`): names with the reserved prefix are refused; a control register resolves
+to itself, an implicit register only at the listed indices, everything else is refused; the requested value is passed on
+(`u64::from(new_value)`); both entry points use the same closure -/
+structure UpdFilter where
+  recognised : Bool
+  sameInBoth : Bool
+  reservedPrefix : String
+  implicitOk : List Nat
+deriving Repr, DecidableEq, Inhabited
+
+/-- `Report::get_field` (`src/lib.rs`): the uid comparison comes first (`staleErr`), then the scope lookup (`notFoundErr`), the
+register class (`wrongClassErr`), the bound `idx >= fields.len()` (`shortErr`) -/
+structure GfTable where
+  recognised : Bool
+  staleErr : String
+  boundIsGe : Bool
+  shortErr : String
+  wrongClassErr : String
+  notFoundErr : String
+deriving Repr, DecidableEq, Inhabited
+
 end Portus.Lang
